@@ -21,6 +21,8 @@ R20.e  time axis: ends at the requested limit if given, else at the
 R20.f  no function of these modules modifies the object of a mutable default
        argument (directly, through a local alias, or with ``+=``): the result
        of a call must not depend on earlier calls.
+R20.g  no for-loop variable of these modules is read after its loop (a statement
+       left one indentation level too shallow sees only the last element).
 """
 
 from __future__ import annotations
@@ -42,6 +44,7 @@ MANIFEST = {
         "creator never returns a cached figure; the axis ends at the makespan "
         "or requested limit. Not decided: pixel/tick values."
         " Also decided: no function of these modules accumulates into a mutable default argument."
+        " Also decided: no for-loop variable of these modules is read after its loop (statement left one indentation level too shallow)."
     ),
     "note": "matplotlib / imageio semantics are trusted.",
     "technique": "writer/reader format agreement (pad width vs sort key) + loop-shape and def-use matching + return-path must-call",
@@ -184,7 +187,9 @@ def _by_role(ctx, module_suffix, pred, what, prefer=None):
     role (recognised by what it calls), independent of its private name."""
     cands = []
     for fi in ctx.repo.all_functions():
-        if isinstance(fi.node, ast.Lambda) or fi.cls is not None or not fi.module.name.endswith(module_suffix):
+        # module-level functions, and methods of private helper classes of the module
+        own_cls = fi.cls is not None and not (fi.cls.name.startswith("_") and not fi.cls.bases)
+        if isinstance(fi.node, ast.Lambda) or own_cls or not fi.module.name.endswith(module_suffix):
             continue
         if any(pred(n) for n in own_nodes(fi.node)):
             cands.append(fi)
@@ -341,6 +346,9 @@ def _legend_labels(ctx):
 
 def run(ctx):
     chk, repo = ctx.chk, ctx.repo
+    from .common import check_loop_variable_leaks
+
+    check_loop_variable_leaks(ctx, "R20.g", ("job_shop_lib.visualization",), "the visualisation")
     from .common import check_mutable_defaults
 
     check_mutable_defaults(ctx, "R20.f", ("job_shop_lib.visualization",), "the visualisation")
@@ -398,6 +406,15 @@ def run(ctx):
         else:
             kt = ast.unparse(key)
             numeric = "int(" in kt or "float(" in kt
+            if not numeric:
+                # any spelling of a one-argument key function (lambda, def, method
+                # of a private helper class, attrgetter ...) normalised to a lambda
+                from .common import key_lambda
+
+                lam = key_lambda(load, key, cls=load.cls, repo=repo)
+                if lam is not None:
+                    bt = ast.unparse(lam.body)
+                    numeric = "int(" in bt or "float(" in bt
             if not numeric:
                 # key through a helper function?
                 if isinstance(key, ast.Name):
@@ -497,6 +514,8 @@ def run(ctx):
         if len(fors) != 2 or not isinstance(fors[0].target, ast.Tuple) or len(fors[0].target.elts) != 2:
             raise AnalysisError("_plot_machine_schedules: machine loop not recognised")
         it0 = ctx.norm.xtext(pms, fors[0].iter).replace(" ", "")
+        # the schedule may be a field of a private chart object
+        it0 = it0.replace("(self.schedule.", "(schedule.")
         t0, t1 = (e.id if isinstance(e, ast.Name) else None for e in fors[0].target.elts)
         if it0 == "enumerate(schedule.schedule)":
             mi, ms = t0, t1
